@@ -52,9 +52,12 @@ def posterior_reference(ctx, clf, data):
 
 
 def check_classifier(ctx, clf, rs, n_feat, n_classes, gaussian, rep, tag):
-    for n_rows in sorted({1, n_classes, n_classes + 3, int(rs.choice([7, 20]))}):
+    for n_rows in sorted({1, n_classes, n_classes + 3, int(rs.choice([7, 20])), 5}):
         X, _ = make_data(rs, max(n_rows, n_classes), n_feat, n_classes, gaussian)
         X = X[:n_rows]
+        if n_rows == 5 and gaussian:
+            X = X + np.float32(rs.choice([25.0, 60.0, -40.0]))      # evidence far from every class: likelihoods underflow in the linear domain
+            ctx.count('outlier-batches')
         miss = rs.rand(*X.shape) < 0.3
         X = np.where(miss, np.nan, X).astype(np.float32)
         ctx.count('rows=classes' if n_rows == n_classes else 'rows!=classes')
@@ -84,8 +87,13 @@ def check_classifier(ctx, clf, rs, n_feat, n_classes, gaussian, rep, tag):
             ctx.violation('c20-proba-value', f'predict_proba[{r},{k}] = {P[r, k]!r} but prior x evidence likelihood normalised over classes is {ref[r, k]!r}', replay=r2)
             return
         # ... and from the exact model
+        Pm = None
         if ctx.driver_ok:
-            Pm, pred_m = posterior_reference(ctx, clf, data)
+            try:
+                Pm, pred_m = posterior_reference(ctx, clf, data)
+            except (S.ExtremeDensity, ZeroDivisionError):
+                ctx.count('batches-too-extreme-for-the-exact-model')      # decided by the log-domain reference above
+        if Pm is not None:
             ctx.count('posterior-entries-vs-model', Pm.size)
             if np.any(np.abs(Pm - P) > 2e-4):
                 r, k = np.unravel_index(int(np.argmax(np.abs(Pm - P))), P.shape)
